@@ -279,7 +279,7 @@ theorem TInv_insert (es seen rest : List Entry) (e : Entry) (tbl : List LE)
   have hc0 := firstWith_none_cnt _ _ hfn
   refine ⟨hfn, ?_, ?_, ?_⟩
   · intro le hle
-    simp only [insertEntry, List.mem_append, List.mem_singleton] at hle
+    simp only [insertEntry, LE.ofEnt, List.mem_append, List.mem_singleton] at hle
     rcases hle with hle | rfl
     · obtain ⟨hd, hh, k, f, hk, hf, hc, hl, hs⟩ := i1 le hle
       refine ⟨hd, hh, k, f, hk, ?_, hc, hl, ?_⟩
@@ -294,7 +294,7 @@ theorem TInv_insert (es seen rest : List Entry) (e : Entry) (tbl : List LE)
         rw [Nat.mod_eq_of_lt l1, u32dec_pos _ (by omega) l1]; omega
       · show u32dec (e.nlink % 4294967296) + _ = _
         rw [Nat.mod_eq_of_lt l1, u32dec_pos _ (by omega) l1, cnt_snoc, hc0]; simp [hp]; omega
-  · simp only [insertEntry]
+  · simp only [insertEntry, LE.ofEnt]
     rw [List.pairwise_append]
     refine ⟨i2, by simp, ?_⟩
     intro a ha b hb
@@ -305,7 +305,7 @@ theorem TInv_insert (es seen rest : List Entry) (e : Entry) (tbl : List LE)
   · intro k f hf hc
     by_cases hk : e.ino = k
     · refine ⟨_, List.mem_append_right _ (List.mem_singleton.2 rfl), ?_⟩
-      simp [Entry.toEnt, hk]
+      simp [Entry.toEnt, LE.ofEnt, hk]
     · simp [firstWith_snoc, hk] at hf
       simp [cnt_snoc, hk] at hc
       obtain ⟨le, hle, h⟩ := i3 k f hf hc
